@@ -124,7 +124,7 @@ func checkC03(c *c03Case, rec *ev.Recorder) *failure {
 	var log []string
 	var rs *jsonschema.Resolved
 	var rerr error
-	fl, hung := withDeadline(20*time.Second, func() *failure {
+	fl, hung := withDeadline(60*time.Second, func() *failure {
 		var s jsonschema.Schema
 		if err := json.Unmarshal([]byte(text), &s); err != nil {
 			return failf("Unmarshal rejects a well-formed document: %v\n%s", err, text)
@@ -137,7 +137,7 @@ func checkC03(c *c03Case, rec *ev.Recorder) *failure {
 		return nil
 	})
 	if hung {
-		return failf("Resolve did not return within 20s (reference cycle not terminated?)\n root: %s\n docs: %s", text, mustJSON(u.Docs))
+		return failf("Resolve did not return within 60s (reference cycle not terminated?)\n root: %s\n docs: %s", text, mustJSON(u.Docs))
 	}
 	if fl != nil {
 		return failf("Resolve panics\n root: %s\n docs: %s\n%s", text, mustJSON(u.Docs), fl.Msg)
